@@ -475,6 +475,10 @@ func (s *Server) handleSessionMessage(addr *net.UDPAddr, msg []byte) error {
 		return nil
 	}
 
+	if PlaintextLen(len(msg)) < 0 {
+		return ErrInvalidMessage
+	}
+
 	// TODO(dadrian): Can we avoid this allocation?
 	plaintext := make([]byte, PlaintextLen(len(msg)))
 	_, mt, err := ss.readPacketLocked(plaintext, msg, ss.readKey)
